@@ -480,6 +480,22 @@ func c05Validators(c *Ctx, ms map[string]*fsmx.Machine) {
 			"no emitted internal event leads to "+vs.advanceDst)
 		// validator must test the decline/error flag BEFORE the unanimity test can succeed: covered because the advance
 		// store is only reachable past the c_err == 0 edge
+		// an expired deadline must win over a completed phase: the advance emission lies behind IsExpired()==false
+		var notExpired []ssax.Edge
+		for _, e := range expiredEdges(fn) {
+			notExpired = append(notExpired, ssax.Edge{From: e.From, Succ: 1 - e.Succ})
+		}
+		for _, x := range em.Names() {
+			for _, s := range desc.Src {
+				if t := m.Trans[[2]string{s, x}]; t != nil && t.Dst == vs.advanceDst {
+					for i, site := range em.Consts[x] {
+						r.Check(len(notExpired) > 0 && !ssax.ReachableAvoiding(fn, site, notExpired, nil), "C05/R4", sprintf("%s->%s:not-expired#%d", key, x, i),
+							"advance event only when the confirmation deadline has not expired", c.PosOf(site),
+							"the advance event can be emitted without passing `IsExpired() == false`: a late last contribution would complete the phase instead of cancelling the round by timeout")
+					}
+				}
+			}
+		}
 		errAtom := sprintf("c:%s:%d", vs.quorum, ke)
 		noErr := ssax.MakeLin(0, map[string]int{errAtom: -1})
 		for _, x := range em.Names() {
